@@ -5,7 +5,10 @@
 #   A2 typed operator applications on boundary values, evaluated in constant contexts (static
 #      initialiser, array size, enum) and at run time under every engine, vs gcc vs CFold / C11Fold;
 #   B  seeded UB-free programs (tools/gen_c07_prog.py): stdout + exit status, every engine vs gcc;
-#   C  deterministic programs of /repo/c-tests with recorded expectations.
+#   F  bit-field stores/loads (tools/gen_c07_bf.py): assignment value, value read back and the bytes of the
+#      whole object under every engine vs gcc vs the extracted BitField model, and the MIR text of the
+#      emitted access sequence (`c2m -S`) vs the model's store_code / load_code;
+#   C  (thorough) the deterministic programs of /repo/c-tests/{lacc,andrewchambers_c,new} vs gcc.
 import os, sys, re, json, shutil, tempfile, hashlib
 import vlib
 sys.path.insert(0, os.path.join(vlib.VERIF, 'tools'))
@@ -284,6 +287,149 @@ def bisect_values(c2m, cs, ex, d, bad0):
     return out
 
 
+# ------------------------------------------------------------------ F: bit-field access
+def bf_query(c, lay, before, v):
+    import gen_c07_bf as F
+    cs, ubits, mt, sg, isb = F.TYPES[c['type']]
+    size, A, w, mask = lay
+    o = A % ubits
+    uoff = (A // ubits) * (ubits // 8)
+    M = int.from_bytes(bytes(before), 'little')
+    u = (M >> (8 * uoff)) & ((1 << ubits) - 1)
+    q = 'bf %x %d %x %x %d %d %x %x' % (ubits, 1 if mt[0] == 'i' else 0, o, w, 1 if sg else 0, 1 if isb else 0, u, v % (1 << 64))
+    return q, (ubits, o, uoff, M)
+
+
+def part_bitfields(chk, c2m, model, d, quick):
+    """returns (number of stores compared, findings, tie notes)"""
+    import gen_c07_bf as F
+    rng = chk.rng('bitfields')
+    ncase = 60 if quick else 600
+    cases = [F.gen_case(rng) for _ in range(ncase)]
+    findings, tie = [], []
+    nst = 0
+    B = 60
+    for off in range(0, len(cases), B):
+        cs = cases[off:off + B]
+        src = os.path.join(d, 'bf%d.c' % off)
+        open(src, 'w').write(F.probe_unit(cs))
+        rc, out, err = run_gcc(src, d, 'bf%d' % off)
+        if rc != 0:
+            raise vlib.BuildError('gcc failed on the bit-field probe unit: %s' % err[-400:])
+        N, V = F.parse_out(out)
+        # model expectations from the reference layout
+        lays, qs, meta = {}, [], []
+        for k, c in enumerate(cs):
+            lay = F.layout(c, k, N)
+            ubits = F.TYPES[c['type']][1]
+            if lay is None or (lay[1] % ubits) + lay[2] > ubits:
+                chk.dist('F_cases', 'skipped (field not measurable / not inside one unit under gcc)')
+                continue
+            lays[k] = lay
+            for j, v in enumerate(c['vals']):
+                before = F.fill_bytes(c['fills'][j], c['seeds'][j], lay[0])
+                q, aux = bf_query(c, lay, before, v)
+                qs.append(q)
+                meta.append((k, j, aux))
+        rcm, mout, merr = vlib.run_lines(model, qs, timeout=300)
+        if rcm != 0 or len(mout) != len(qs):
+            raise vlib.BuildError('driver_c07 failed on bf queries: rc=%d %s' % (rcm, merr[-300:]))
+        exp = {}
+        for (k, j, (ubits, o, uoff, M)), l in zip(meta, mout):
+            w = l.split()
+            if w[:2] == ['bf', 'illformed']:
+                continue
+            nu, av, rb, cv = (int(x, 16) for x in w[1:5])
+            if av != cv or rb != cv:
+                tie.append('BitField model: assignment value / read back differ from c11_conv_bf on %s' % qs[0])
+            M2 = (M & ~(((1 << ubits) - 1) << (8 * uoff))) | (nu << (8 * uoff))
+            exp[(k, j)] = (av, rb, M2)
+        runs = {'gcc': (N, V)}
+        notes = {}
+        for e in ENGINES:
+            rc, out, err = run_c2m(c2m, src, e, d)
+            runs[ename(e)] = F.parse_out(out)
+            if rc != 0:
+                notes[ename(e)] = 'rc=%d %s' % (rc, (err + out[-200:])[-300:])
+        for k, c in enumerate(cs):
+            if k not in lays:
+                continue
+            size, A, w, mask = lays[k]
+            ubits = F.TYPES[c['type']][1]
+            chk.dist('F_type', c['type'])
+            chk.dist('F_width', 'unit' if w == ubits else ('1' if w == 1 else ('<8' if w < 8 else ('<32' if w < 32 else '>=32'))))
+            chk.dist('F_offset_in_unit', '0' if A % ubits == 0 else ('end' if A % ubits + w == ubits else 'middle'))
+            for j, v in enumerate(c['vals']):
+                if (k, j) not in exp:
+                    continue
+                av, rb, M2 = exp[(k, j)]
+                nst += 1
+                chk.count('F:%r' % ((c['type'], w, A, v, c['fills'][j], c['forms'][j]),), nontrivial=True, n=len(ENGINES) + 1)
+                chk.dist('F_form', c['forms'][j])
+                want = (av, rb, M2 & mask)
+                for en, (Nn, Vv) in runs.items():
+                    g = Vv.get((k, j))
+                    got = None if g is None else (g[0], g[1], int.from_bytes(g[2], 'little') & mask)
+                    lay_ok = all(Nn.get(key) == N.get(key) for key in N if key[0] == k)
+                    if got == want and lay_ok:
+                        continue
+                    if en == 'gcc':
+                        raise vlib.BuildError('BitField specification disagrees with gcc on %s %s:%d at bit %d value %d: gcc %s, model %s'
+                                              % (c['type'], 'f', w, A, v, got, want))
+                    what = ('layout of the struct differs from gcc' if not lay_ok else 'no output (%s)' % notes.get(en, '') if got is None
+                            else 'value of the assignment expression' if got[0] != want[0]
+                            else 'value read back' if got[1] != want[1] else 'bytes of the object (bits of named members)')
+                    findings.append((c, k, j, en, what, got, want))
+        # the emitted code
+        csrc = os.path.join(d, 'bfcode%d.c' % off)
+        open(csrc, 'w').write(F.code_unit(cs))
+        rc, out, err = vlib.sh([c2m, '-w', '-S', csrc, '-o', os.path.join(d, 'bfcode.mir')], timeout=120, cwd=d)
+        fs = F.mir_functions(open(os.path.join(d, 'bfcode.mir')).read()) if rc == 0 and os.path.exists(os.path.join(d, 'bfcode.mir')) else {}
+        if not fs:
+            tie.append('c2m -S failed on the bit-field code unit: rc=%d %s' % (rc, err[-200:]))
+        cq, ck = [], []
+        for k, c in enumerate(cs):
+            if k in lays and fs:
+                cs_, ubits, mt, sg, isb = F.TYPES[c['type']]
+                size, A, w, mask = lays[k]
+                cq.append('bfcode %x %d %x %x %d' % (ubits, 1 if mt[0] == 'i' else 0, A % ubits, w, 1 if sg else 0))
+                ck.append(k)
+        if cq:
+            rcm, mout, merr = vlib.run_lines(model, cq, timeout=300)
+            if rcm != 0 or len(mout) != len(cq):
+                raise vlib.BuildError('driver_c07 failed on bfcode queries: rc=%d %s' % (rcm, merr[-300:]))
+            for k, l in zip(ck, mout):
+                c = cs[k]
+                cs_, ubits, mt, sg, isb = F.TYPES[c['type']]
+                size, A, w, mask = lays[k]
+                m = re.match(r'store: (.*) ; result r(\d+) ; load: (.*)$', l)
+                for kind, fn, mcode in (('store', 'st%d' % k, m.group(1)), ('load', 'ld%d' % k, m.group(3))):
+                    got = F.canon_access(fs.get(fn, []), kind)
+                    if got is not None:      # the theorems hold for either extension of the unit load: compare its size only
+                        got = (got[0], got[1][1:], got[2])
+                    want = (F.canon_model(mcode), mt[1:], (A // ubits) * (ubits // 8))
+                    chk.count('Fcode:%s:%r' % (kind, want), nontrivial=True)
+                    if got != want:
+                        tie.append('emitted bit-field %s code of `%s f:%d` at bit %d: c2m -S %s, model %s' % (kind, cs_, w, A, got, want))
+    if cases:
+        chk.sample('bit-field probe: %s f:%d after %d members, values %s' % (F.TYPES[cases[0]['type']][0], cases[0]['width'],
+                                                                          len(cases[0]['members']) - 1, cases[0]['vals'][:3]))
+    seen = set()
+    for c, k, j, en, what, got, want in findings:
+        sig = 'bf:%s:%d:%s' % (c['type'], c['width'], what.split(' (')[0])
+        if sig in seen or len(seen) >= 5:
+            continue
+        seen.add(sig)
+        engines = sorted(set(f[3] for f in findings if f[0] is c and f[2] == j))
+        one = dict(c, vals=[c['vals'][j]], fills=[c['fills'][j]], seeds=[c['seeds'][j]], forms=[c['forms'][j]])
+        chk.finding(sig, dict(kind='bf', case=one, program=F.probe_unit([one]), engines=engines, what=what,
+                              got=[hex(x) for x in got] if got else None, want=[hex(x) for x in want]),
+                    'bit-field `%s f:%d` (%s = %d, object filled with %s): %s under c2m %s: got %s, gcc/model %s'
+                    % (F.TYPES[c['type']][0], c['width'], c['forms'][j], c['vals'][j], c['fills'][j], what, ','.join(engines),
+                       [hex(x) for x in got] if got else None, [hex(x) for x in want]))
+    return nst, findings, tie
+
+
 # ------------------------------------------------------------------ B: generated programs
 # generator shape -> signature of the known finding whose witness exhibits it
 KNOWN_SHAPES = {'nested-postdec-while': 'prog:corpus:c07_prog_nested_loop.c',
@@ -420,27 +566,42 @@ def run(chk):
                                 'struct copies, calls, the engines']
     with Scratch() as d:
         c2m, model = tools(d)
-        parts = os.environ.get('C07_PARTS', 'AB')      # development switch; the registered command runs everything
-        n1 = n2 = n3 = 0
+        parts = os.environ.get('C07_PARTS', 'ABF')      # development switch; the registered command runs everything
+        n1 = n2 = n3 = n4 = 0
         model_breaks = []
+        bf_tie = []
         if 'A' in parts:
             n1, bad_types = part_types(chk, c2m, model, d)
             n2, bad_values, model_breaks = part_values(chk, c2m, model, d, quick)
+        if 'F' in parts:
+            n4, bad_bf, bf_tie = part_bitfields(chk, c2m, model, d, quick)
         if 'B' in parts:
             n3, bad_progs = part_programs(chk, c2m, d, quick)
     chk.cov['rule'] = ('A1: _Generic type id of every operator on all 15x15 arithmetic type pairs and of typed integer constants; '
                        'A2: each UB-free typed operator application is evaluated in 3 constant contexts and 2 run-time forms under '
                        '7 c2m engine configurations and gcc (evaluations = cases x 5 x 8); every case is non-trivial; distinct by case; '
                        'B: seeded UB-free programs (validated by gcc -fsanitize=undefined and -O0/-O1/-O2 agreement), stdout + exit status '
-                       'under the 7 engine configurations vs gcc')
-    tie_broken = bool(lim) or not r['ok'] or bool(model_breaks)
+                       'under the 7 engine configurations vs gcc; '
+                       'F: bit-field stores (declared type x width x position in the unit x neighbours x boundary value x fill pattern x '
+                       'form): assignment value, read-back and named bits of the whole object under 7 engine configurations and gcc vs '
+                       'the extracted BitField model; emitted MIR access code (c2m -S) vs the model code')
+    tie_broken = bool(lim) or not r['ok'] or bool(model_breaks) or bool(bf_tie)
     if tie_broken and not chk.violations:
         r = dict(r)
         if lim:
             r['log'] += '\nLimits tie: ' + '; '.join(lim)
         if model_breaks:
             r['log'] += '\nCFold model disagrees with C11Fold on: %s' % (model_breaks[:3],)
-        chk.proof_broken(r, searched='%d type probes and %d value probes agreed between c2m, gcc and the models' % (n1, n2))
+        searched = '%d type probes, %d value probes and %d bit-field stores agreed between c2m, gcc and the models' % (n1, n2, n4)
+        if bf_tie and not (lim or model_breaks) and r['ok']:
+            # the theorems are about store_code / load_code of coq/C07/BitField.v; the code c2m emits is no longer that code
+            chk.finding('bitfield-code-tie', dict(theorems=r['theorems'], broken=bf_tie[:6], searched=searched),
+                        'the bit-field access code c2m emits is no longer the code the BitField theorems are about (%d differences), '
+                        'e.g. %s' % (len(bf_tie), bf_tie[0][:400]), no_input=True)
+        else:
+            if bf_tie:
+                r['log'] += '\nBitField tie (coq/C07/BitField.v store_code/load_code vs c2m -S): ' + '; '.join(bf_tie[:4])
+            chk.proof_broken(r, searched=searched)
 
 
 def replay(chk, path):
@@ -461,6 +622,23 @@ def replay(chk, path):
             n, bad = part_types(chk, c2m, model, d)
             for b in bad:
                 print(b)
+            return 1 if bad else 0
+        if j.get('kind') == 'bf':
+            import gen_c07_bf as F
+            src = os.path.join(d, 'bf.c')
+            open(src, 'w').write(j['program'])
+            rc, out, err = run_gcc(src, d, 'bf')
+            print('case: %s f:%d, members %s' % (F.TYPES[j['case']['type']][0], j['case']['width'], j['case']['members']))
+            print('lines: N <case> <member> - - <object bytes after storing all-ones into the member>;')
+            print('       V <case> <n> <assignment value> <value read back> <object bytes after the store>')
+            print('gcc:\n' + out)
+            ref = F.parse_out(out)
+            bad = 0
+            for e in ENGINES:
+                rc, o, err = run_c2m(c2m, src, e, d)
+                same = F.parse_out(o) == ref
+                bad += not same
+                print('%-8s %s' % (ename(e), 'same as gcc' if same else 'DIFFERS:\n' + o + err[-200:]))
             return 1 if bad else 0
         if j.get('kind') == 'prog':
             build_ext(d)
